@@ -1621,8 +1621,7 @@ forward_query(int bind_fd, struct query *q)
 	char buf[64*1024];
 	int len;
 	struct fw_query fwq;
-	struct sockaddr_in *myaddr;
-	in_addr_t newaddr;
+	struct sockaddr_in myaddr;
 
 	len = dns_encode(buf, sizeof(buf), q, QR_QUERY, q->name, strlen(q->name));
 	if (len < 1) {
@@ -1636,16 +1635,18 @@ forward_query(int bind_fd, struct query *q)
 	fwq.id = q->id;
 	fw_query_put(&fwq);
 
-	newaddr = inet_addr("127.0.0.1");
-	myaddr = (struct sockaddr_in *) &(q->from);
-	memcpy(&(myaddr->sin_addr), &newaddr, sizeof(in_addr_t));
-	myaddr->sin_port = htons(bind_port);
+	/* The local DNS server is reached over IPv4 whatever the
+	   address family the query arrived with */
+	memset(&myaddr, 0, sizeof(myaddr));
+	myaddr.sin_family = AF_INET;
+	myaddr.sin_addr.s_addr = inet_addr("127.0.0.1");
+	myaddr.sin_port = htons(bind_port);
 
 	if (debug >= 2) {
 		fprintf(stderr, "TX: NS reply \n");
 	}
 
-	if (sendto(bind_fd, buf, len, 0, (struct sockaddr*)&q->from, q->fromlen) <= 0) {
+	if (sendto(bind_fd, buf, len, 0, (struct sockaddr*)&myaddr, sizeof(myaddr)) <= 0) {
 		warn("forward query error");
 	}
 }
